@@ -418,6 +418,24 @@ def rule_safedb(ctx):
             yield o
 
 
+def rule_evalkw(ctx):
+    """separation.evaluate hands the caller's keyword arguments to the four metric families as they are: it neither
+    injects nor overrides one (compute_permutation defaults to True for the whole-signal metrics and to False for the
+    framewise ones - a default forced in evaluate() changes one family's documented behaviour)."""
+    R = "C19.EVALKW"
+    f = ctx.program.func("separation.evaluate", R)
+    s = ctx.S.get(f.qual)
+    need(f.kwarg, R, "separation.evaluate has no **kwargs")
+    writes = [m for m in s.by_kind("mutate") if m.root == f.kwarg]
+    yield ob(R, f, "separation.evaluate:kwargs-untouched", not writes, "evaluate() forwards **kwargs unchanged" if not writes else "evaluate() writes its keyword arguments (%s at line %d) before forwarding them: a default injected here overrides the documented default of a metric family" % (writes[0].how, writes[0].lineno), node=writes[0].node if writes else None)
+    fams = [c for c in s.calls() if c.via_filter]
+    need(len(fams) >= 4, R, "separation.evaluate: the four filter_kwargs calls were not found")
+    for i, c in enumerate(fams):
+        kws = [v for n, v in c.kw if n == "**"]
+        ok = len(kws) == 1 and kws[0].op == "param" and kws[0].a[0] == f.kwarg
+        yield ob(R, f, "separation.evaluate:forward@%d" % i, ok, "%s receives the caller's **kwargs" % c.callee, node=c.node)
+
+
 def rule_extnames(ctx):
     """the projection helpers fall back to a least-squares solve when the Gram matrix is singular (a hard-panned or
     duplicated reference): the exception class named in that handler must exist in the installed NumPy"""
@@ -425,6 +443,7 @@ def rule_extnames(ctx):
 
 
 RULES = [
+    ("C19.EVALKW", 4, rule_evalkw),
     ("C19.EXTNAMES", 20, rule_extnames),
     ("C19.SAFEDB", 2, rule_safedb),
     ("C19.LINEAR", 9, rule_linear),
